@@ -379,6 +379,7 @@ func init() {
 		n := binary.BigEndian.Uint64(d[1:9])
 		s := make([]uint64, n) // what a decoder trusting a claimed length would do
 		s[0], s[len(s)-1] = 1, 1
+		time.Sleep(30 * time.Millisecond) // ... and then spend some time filling it
 		c02Sink = s
 		c02Sink = nil
 		return nil
